@@ -447,6 +447,9 @@ type c13HsCase struct {
 	Role   string  `json:"role"` // server | client-memfd
 	Script []c13Ev `json:"script"`
 	Raw    []byte  `json:"raw,omitempty"`
+	// RealFiles: the payload of the last event of the script is replaced by the paths of a real queue file and a real
+	// buffer file created for the case, so that the handshake can SUCCEED with whatever versions the script announced
+	RealFiles bool `json:"real_files,omitempty"`
 }
 
 func c13HsCases(thorough bool) []c13HsCase {
@@ -485,6 +488,17 @@ func c13HsCases(thorough bool) []c13HsCase {
 	for _, tail := range [][]byte{nil, {1}, {1, 2, 3, 4, 5, 6, 7, 8}, make([]byte, 64)} {
 		out = append(out, c13HsCase{Role: "server", Script: []c13Ev{{Type: uint8(typeExchangeProtoVersion), Version: 3, Len: -1}, {Type: uint8(typeShareMemoryByMemfd), Version: 3, Len: -1, Payload: good}}, Raw: tail})
 	}
+	// handshakes that can succeed (real shared-memory files behind the announced paths) under every announced version:
+	// the session is then USED (open a stream, write, flush, close) - a value taken from the wire during the handshake
+	// must not crash a later operation either
+	for _, ver := range []uint8{0, 1, 2, 3, 4, 7, 255} {
+		out = append(out, c13HsCase{Role: "server", RealFiles: true, Script: []c13Ev{{Type: uint8(typeShareMemoryByFilePath), Version: ver, Len: -1}}})
+		for _, v2 := range []uint8{2, 3, ver} {
+			out = append(out, c13HsCase{Role: "server", RealFiles: true, Script: []c13Ev{{Type: uint8(typeExchangeProtoVersion), Version: ver, Len: -1}, {Type: uint8(typeShareMemoryByFilePath), Version: v2, Len: -1}}})
+		}
+		out = append(out, c13HsCase{Role: "client-memfd", Script: []c13Ev{{Type: uint8(typeExchangeProtoVersion), Version: ver, Len: -1}, {Type: uint8(typeAckReadyRecvFD), Version: ver, Len: -1}, {Type: uint8(typeAckShareMemory), Version: ver, Len: -1}}})
+		out = append(out, c13HsCase{Role: "client-memfd", Script: []c13Ev{{Type: uint8(typeExchangeProtoVersion), Version: ver, Len: -1}, {Type: uint8(typeAckReadyRecvFD), Version: 3, Len: -1}, {Type: uint8(typeAckShareMemory), Version: 3, Len: -1}}})
+	}
 	// client role (memfd mapping => version exchange): the server answers with any event
 	for _, typ := range []uint8{0, 1, 2, 3, 4, 5, 6, 7, 8, 9, 10, 255} {
 		for _, ver := range []uint8{0, 1, 2, 3, 4, 255} {
@@ -516,9 +530,36 @@ func c13HsRun(c c13HsCase, n int) string {
 	}
 	peer := fds[1]
 	var script []byte
-	for _, e := range c.Script {
+	var cleanup []string
+	for i, e := range c.Script {
+		if c.RealFiles && i == len(c.Script)-1 {
+			qp := fmt.Sprintf("/dev/shm/verif_c13_%d_%d_queue", os.Getpid(), n)
+			bp := fmt.Sprintf("/dev/shm/verif_c13_%d_%d_buffer", os.Getpid(), n)
+			cleanup = append(cleanup, qp, bp)
+			qm, err := createQueueManager(qp, 8)
+			if err != nil {
+				return "harness: createQueueManager: " + err.Error()
+			}
+			bm, err := getGlobalBufferManager(bp, 1<<20, true, []*SizePercentPair{{Size: 4096, Percent: 100}})
+			if err != nil {
+				return "harness: getGlobalBufferManager: " + err.Error()
+			}
+			_, _ = qm, bm
+			pl := make([]byte, 0, 4+len(qp)+len(bp))
+			x := make([]byte, 2)
+			binary.BigEndian.PutUint16(x, uint16(len(qp)))
+			pl = append(append(pl, x...), qp...)
+			binary.BigEndian.PutUint16(x, uint16(len(bp)))
+			pl = append(append(pl, x...), bp...)
+			e.Payload = pl
+		}
 		script = append(script, e.bytes()...)
 	}
+	defer func() {
+		for _, f := range cleanup {
+			os.Remove(f)
+		}
+	}()
 	script = append(script, c.Raw...)
 	cfg := DefaultConfig()
 	cfg.InitializeTimeout = 40 * time.Millisecond
@@ -550,6 +591,16 @@ func c13HsRun(c c13HsCase, n int) string {
 	res := "error"
 	if err == nil {
 		res = "established"
+		// use the session: nothing the peer announced during the handshake may crash a later call
+		if st, e := s.OpenStream(); e == nil {
+			st.BufferWriter().WriteBytes([]byte("hello"))
+			st.Flush(false)
+			st.SetReadDeadline(time.Now().Add(5 * time.Millisecond))
+			st.BufferReader().ReadBytes(1)
+			st.Close()
+			res = "established+used"
+		}
+		s.GetMetrics()
 		s.Close()
 	}
 	syscall.Close(peer)
